@@ -17,7 +17,7 @@ class C12(Prop):
     id = "C12"
     title = "Buffered commands are served fairly: one per user per cycle, nobody starves"
     lean_modules = ["NV.C12.Props", "NV.C12.Witness", "NV.C12.Trace", "NV.C12.Fifo3", "NV.C12.Fifo5", "NV.C12.Neg", "NV.C12.Flag",
-                    "NV.C12.Lemmas4", "NV.C12.Live4"]
+                    "NV.C12.Lemmas4", "NV.C12.Live4", "NV.C12.Order1"]
     lean_modules_ = None
     theorems = [
         "NV.C12.flag_bits",
@@ -81,6 +81,9 @@ class C12(Prop):
         "NV.C12.cmdLoop_thrown_false",
         "NV.C12.judgeLive_events",
         "NV.C12.judgeEv_events_eq_order",
+        "NV.C12.model_satisfies_spec_noerr",
+        "NV.C12.order_of_struct",
+        "NV.C12.run_noerr",
         "NV.C12.B_cycle",
         "NV.C12.B_step",
         "NV.C12.B_run",
@@ -104,26 +107,41 @@ class C12(Prop):
     thorough_n = 2500
     search_n = 600
     design_ref = "5/C12"
-    technique = ("Lean 4 proof (invariants of the rotating cursor, turn counting, induction over the command loop and over "
-                 "histories) + translator-generated flag bits + model/implementation correspondence on the real backend() loop")
+    technique = ("Lean 4 proof (invariants of the rotating cursor, turn counting, induction over the command loop, over the "
+                 "restarts after uncaught errors with a weight measure, and over histories; simulation between the "
+                 "specification oracle and the model) + translator (flag bits, cursor / bound / grant / timeout / growth "
+                 "expressions from the source text, statement order of backend(), get_user_command(), process_user_command() "
+                 "from the clang AST) + model/implementation correspondence on the real backend() loop")
     level_text = ("Lean 4 theorems about an executable model of the turn-grant loop and bounded command loop of backend() and of "
                   "get_user_command/process_user_command (rotating cursor, HAS_CMD_TURN/CMD_IN_BUF/SINGLE_CHAR, sparse connection "
-                  "table, (dis)connects between and inside cycles, command() efun) for all tables, cursors, queue depths and "
-                  "scripts; the model is tied to the source by the regenerated flag bits and by stepping the REAL backend() loop "
-                  "(guarded cycle hook) with loopback TCP clients on the same histories; the Lean specification oracle judges "
-                  "every implementation trace")
-    level_note = ("trusted: Lean kernel; extract.py; the correspondence harness (differential, only the generated histories); LPC "
-                  "code run by commands is an oracle script with fuel; input buffer size rules (C13), `!` escapes, ed and errors "
-                  "thrown by commands are outside the model")
-    rule = ("cases = corpus + boundary list + seeded random histories: 1..12 users connecting (accept queue), closing, being "
-            "kicked/dropped from inside commands, sparse slot layouts, bursts of 0..12 lines per user incl. partial lines and "
-            "empty lines, get_char/input_to mode switches, nested command() calls; every cycle of the real backend() is "
-            "compared line by line with the model (commands served, iflags and slot of every user after each cycle); a case is "
-            "non-trivial when at least one buffered command was executed; distinct = distinct canonical implementation trace")
-    not_covered = ["commands that throw an LPC error (longjmp to the top of backend(): the aborted cycle never reaches the hook)",
-                   "interactive_t.text compaction / overflow rules (more than ~300 bytes per user per case) - property C13",
-                   "`!` shell escapes with a pending input_to, ed, snooping, console user (slot 0), telnet negotiation bytes",
-                   "a connect and a disconnect of different users inside one process_io (event order of the poller is not modelled)"]
+                  "table, (dis)connects between and inside cycles incl. a connect and disconnects in one process_io, command() "
+                  "efun, uncaught LPC errors that abort an iteration and restart the loop) for all tables, cursors, queue depths "
+                  "and scripts; trace level: the specification oracle accepts every model trace for the clauses twice / outside / "
+                  "crash / malformed / efun / fifo / starved / idleWait (all histories with plain bytes, all scripts) and for all "
+                  "clauses when no script throws (model_satisfies_spec_noerr); the model is tied to the source by regenerated "
+                  "expressions, flag bits and AST statement orders (bridging lemmas are obligations) and by stepping the REAL "
+                  "backend() loop (guarded cycle hook; aborted iterations seen through the second poll) with loopback TCP clients "
+                  "on the same histories; the Lean oracle judges every implementation trace")
+    level_note = ("trusted: Lean kernel; extract.py / c12_extract.py; the correspondence harness (differential, only the generated "
+                  "histories; poll events are reported to the driver in a fixed order: listening port, then users by slot); LPC "
+                  "code run by commands is an oracle script with fuel; clause `overtaken` (round robin across aborted "
+                  "iterations) is checked on every implementation trace but proved for the model only for scripts that never "
+                  "throw; sent bytes in the trace theorems are plain (no NUL/BS/DEL/CR/LF); input buffer size rules (C13), `!` "
+                  "escapes, ed, exec(), console user are outside the model")
+    rule = ("cases = corpus + boundary list + seeded random histories: 1..12 users (sometimes 50..112) connecting (accept queue), "
+            "closing, being kicked/dropped from inside commands, sparse slot layouts, several users quitting inside one command "
+            "loop with nobody idle, bursts of 0..12 lines per user incl. partial lines and empty lines, get_char/input_to mode "
+            "switches, nested command() calls, commands that raise uncaught errors (aborted iterations); every cycle of the real "
+            "backend() is compared line by line with the model (commands served, iflags and slot of every user after each "
+            "cycle); a case is non-trivial when at least one buffered command was executed; distinct = distinct canonical "
+            "implementation trace")
+    not_covered = ["interactive_t.text compaction / overflow rules (more than ~300 bytes per user per case) - property C13; note: "
+                   "C13's open finding C13-typeahead-discard (complete type-ahead commands discarded when > 1663 bytes are "
+                   "pending) is a loss of commands that wait for their turns, i.e. it also breaks the FIFO clause of this "
+                   "property for such bursts",
+                   "`!` shell escapes with a pending input_to, ed, snooping, console user (slot 0), telnet negotiation bytes, exec()",
+                   "clause `overtaken` for the model when scripts throw (needs the order of the cursor walk across restarts)",
+                   "heart beats: an iteration aborted by an error skips call_heart_beat() (property C11)"]
 
     # ---- tie: scheduling expressions regenerated from the source text ------------------------------------
     @staticmethod
